@@ -71,6 +71,12 @@ CHECKS = {
           'and keyed containers are written with their keys.',
   'note': 'Value-level equality of a reloaded object and stability of the re-serialised document are not decided. Model values are packed by SDCompact (decided under C16). Known finding: TextInterpretation is written without its interpretant ids (recorded in known_findings.json).',
  },
+ 'C16': {
+  'technique': 'sibling (writer/reader) agreement rules over the typed AST: dispatch tables, argument identity, per-case cell partition of the visitors, loop ranges; who-may-call + guard dominance for the unchecked reads',
+  'text': 'Decides that the packer and the unpacker of the compact table agree on its shape for every typification (mirror dispatch, the empty-set placeholder written and skipped for the same type with one cell per basic/collection level, '
+          'same tuple component range, cardinality cell plus one row per element) and that every unchecked table read of the unpacker is only reachable under the cursor bounds test of UnpackFor, element loops are bounded by the row count and trailing rows are rejected.',
+  'note': 'Round-trip equality as values and behaviour for hostile counts beyond the structural guards (negative or huge numbers) are not decided. A re-design of the encoding makes the sibling rules ANALYSIS-BROKEN rather than pass.',
+ },
 }
 
 _PENDING = 'rule module not yet implemented in this round; see DESIGN.md section 4 for the clauses planned'
